@@ -9,7 +9,9 @@ def http_date(dt):
     :return: dt as a string according to RFC 1123 format
     :rtype: str
     """
-    return dt.astimezone(pytz.utc).strftime("%a, %d %b %Y %H:%M:%S GMT")
+    utc = dt.astimezone(pytz.utc)
+    # strftime("%Y") does not zero-pad years below 1000; RFC 1123 needs 4 digits.
+    return utc.strftime("%a, %d %b ") + "%04d" % utc.year + utc.strftime(" %H:%M:%S GMT")
 
 
 def parse_http_date(ds, tz):
